@@ -117,7 +117,7 @@ Definition all_representable (c : case) : bool :=
 Definition spec_holds (c : case) : bool :=
   let fs := c_fields c in
   let n := Z.of_nat (length (c_before c)) in
-  if o_err c then negb (all_representable c)      (* Create may fail only on unrepresentable input *)
+  if o_err c then negb (all_representable c) || (n =? 0)   (* Create may fail only on unrepresentable or empty input *)
   else
     (o_readerrs c =? 0) && (o_rowcount c =? n)
     (* read back into fresh structs by Find / First / Take: equal field values *)
